@@ -67,6 +67,110 @@ let show_pevent = function
   | PlainFrame.ErrBadPreamble (Some v) -> Printf.sprintf "E:bad_preamble:%s" (hex_of_n v)
 let show_status = function PlainFrame.Ok -> "ok" | PlainFrame.Errored -> "error" | PlainFrame.OutOfFuel -> "OUT_OF_FUEL"
 
+(* ---- symbolic byte strings: '.'-separated tokens, hex of raw bytes or s<value>x<count> ---- *)
+let sym_of_text (s : string) : coq_N list =
+  if s = "-" then [] else
+  Stdlib.List.concat (Stdlib.List.map (fun tok ->
+    if Stdlib.String.length tok > 0 && tok.[0] = 's' then
+      (match Stdlib.String.split_on_char 'x' (Stdlib.String.sub tok 1 (Stdlib.String.length tok - 1)) with
+       | [v; c] -> Stdlib.List.init (int_of_string c) (fun _ -> n_of_int (int_of_string v))
+       | _ -> failwith "sym token")
+    else bytes_of_hex tok) (Stdlib.String.split_on_char '.' s))
+let text_of_sym (l : coq_N list) : string =
+  if l = [] then "-" else begin
+    let buf = Stdlib.Buffer.create 64 in
+    let rec go l in_raw = match l with
+      | [] -> ()
+      | x :: r ->
+        let i = int_of_n x in
+        if i < 256 then begin
+          if not in_raw && Stdlib.Buffer.length buf > 0 then Stdlib.Buffer.add_char buf '.';
+          Stdlib.Buffer.add_string buf (Printf.sprintf "%02x" i); go r true end
+        else begin
+          let rec count l c = match l with y :: r' when int_of_n y = i -> count r' (c + 1) | _ -> (c, l) in
+          let (c, rest) = count r 1 in
+          if Stdlib.Buffer.length buf > 0 then Stdlib.Buffer.add_char buf '.';
+          Stdlib.Buffer.add_string buf (Printf.sprintf "s%dx%d" i c); go rest false end in
+    go l false; Stdlib.Buffer.contents buf end
+
+(* ideal AEAD on symbolic strings: an intact ciphertext under nonce n in direction d is
+   [1000 + d + n] ++ plaintext ++ 15 x [256]; anything else fails to authenticate *)
+let sym_tag = 256 and sym_nonce0 = 1000 and dir_c2s = 0 and dir_s2c = 500000
+let sym_encrypt dir (n : coq_N) (pt : coq_N list) : coq_N list =
+  n_of_int (sym_nonce0 + dir + int_of_n n) :: (pt @ Stdlib.List.init 15 (fun _ -> n_of_int sym_tag))
+let sym_decrypt dir (n : coq_N) (ct : coq_N list) : coq_N list option =
+  match ct with
+  | [] -> None
+  | h :: r ->
+    let len = Stdlib.List.length r in
+    if int_of_n h <> sym_nonce0 + dir + int_of_n n || len < 15 then None else
+    let pt = Stdlib.List.filteri (fun i _ -> i < len - 15) r in
+    let tag = Stdlib.List.filteri (fun i _ -> i >= len - 15) r in
+    if Stdlib.List.for_all (fun x -> int_of_n x = sym_tag) tag && Stdlib.List.for_all (fun x -> int_of_n x < 256) pt
+    then Some pt else None
+let hs_init_sym = Stdlib.List.init 48 (fun _ -> n_of_int 300)
+let hs_read_sym (m : coq_N list) : bool = Stdlib.List.length m = 48 && Stdlib.List.for_all (fun x -> int_of_n x = 301) m
+
+(* strict UTF-8 validity, as bytes.decode() *)
+let utf8_ok (b : coq_N list) : bool =
+  let a = Stdlib.Array.of_list (Stdlib.List.map int_of_n b) in
+  let n = Stdlib.Array.length a in
+  let cont i = i < n && a.(i) land 0xC0 = 0x80 in
+  let rec go i =
+    if i >= n then true else
+    let c = a.(i) in
+    if c > 255 then false
+    else if c < 0x80 then go (i + 1)
+    else if c >= 0xC2 && c <= 0xDF then cont (i+1) && go (i + 2)
+    else if c = 0xE0 then i+1 < n && a.(i+1) >= 0xA0 && a.(i+1) <= 0xBF && cont (i+2) && go (i + 3)
+    else if c = 0xED then i+1 < n && a.(i+1) >= 0x80 && a.(i+1) <= 0x9F && cont (i+2) && go (i + 3)
+    else if (c >= 0xE1 && c <= 0xEF) then cont (i+1) && cont (i+2) && go (i + 3)
+    else if c = 0xF0 then i+1 < n && a.(i+1) >= 0x90 && a.(i+1) <= 0xBF && cont (i+2) && cont (i+3) && go (i + 4)
+    else if c >= 0xF1 && c <= 0xF3 then cont (i+1) && cont (i+2) && cont (i+3) && go (i + 4)
+    else if c = 0xF4 then i+1 < n && a.(i+1) >= 0x80 && a.(i+1) <= 0x8F && cont (i+2) && cont (i+3) && go (i + 4)
+    else false in
+  go 0
+
+let show_nerr = function
+  | NoiseFrame.EBadMarker b -> Printf.sprintf "bad_marker:%s" (hex_of_n b)
+  | NoiseFrame.EEmptyHello -> "empty_hello"
+  | NoiseFrame.EUnknownProto p -> Printf.sprintf "unknown_proto:%s" (hex_of_n p)
+  | NoiseFrame.EBadName n -> "bad_name:" ^ hex_of_bytes n
+  | NoiseFrame.EEmptyHandshake -> "empty_handshake"
+  | NoiseFrame.EHandshakeFail t -> "handshake_fail:" ^ hex_of_bytes t
+  | NoiseFrame.EInvalidKey -> "invalid_key"
+  | NoiseFrame.EClosedFrame -> "closed_frame"
+  | NoiseFrame.EConnClosed -> "conn_closed"
+  | NoiseFrame.EDroppedAfterHello -> "dropped_after_hello"
+  | NoiseFrame.ESocketClosed -> "socket_closed"
+  | NoiseFrame.ERawOther -> "raw"
+let show_nevent = function
+  | NoiseFrame.NDeliver (ty, pl) -> Printf.sprintf "D:%s:%s" (hex_of_n ty) (hex_of_bytes pl)
+  | NoiseFrame.NReadyOk -> "RDY"
+  | NoiseFrame.NReadyErr e -> "RERR:" ^ show_nerr e
+  | NoiseFrame.NFatal e -> "FATAL:" ^ show_nerr e
+  | NoiseFrame.NTransportClose -> "TCLOSE"
+  | NoiseFrame.NWrite d -> "W:" ^ text_of_sym d
+  | NoiseFrame.NRaise NoiseFrame.RInvalidTag -> "RAISE:invalid_tag"
+  | NoiseFrame.NRaise NoiseFrame.RIndexError -> "RAISE:index"
+  | NoiseFrame.NRaise NoiseFrame.RUnicode -> "RAISE:unicode"
+let parse_pkts (w : string) = if w = "-" then [] else
+  Stdlib.List.map (fun x -> match Stdlib.String.split_on_char ':' x with
+    | [t; p] -> (n_of_hex t, bytes_of_hex p) | _ -> failwith "pkt") (Stdlib.String.split_on_char ',' w)
+let parse_op (w : string) : NoiseFrame.op =
+  match Stdlib.String.index_opt w '=' with
+  | None -> (match w with "made" -> NoiseFrame.OMade | "eof" -> NoiseFrame.OEof | "close" -> NoiseFrame.OClose | _ -> failwith ("op " ^ w))
+  | Some i ->
+    let k = Stdlib.String.sub w 0 i and v = Stdlib.String.sub w (i + 1) (Stdlib.String.length w - i - 1) in
+    (match k with
+     | "data" -> NoiseFrame.OData (sym_of_text v)
+     | "write" -> NoiseFrame.OWrite (parse_pkts v)
+     | "lost" -> NoiseFrame.OLost (match v with "none" -> NoiseFrame.LostNone | "reset" -> NoiseFrame.LostReset
+                                               | "tag" -> NoiseFrame.LostInvalidTag | _ -> NoiseFrame.LostOther)
+     | _ -> failwith ("op " ^ w))
+let show_nstate = function NoiseFrame.NHello -> "hello" | NoiseFrame.NHandshake -> "handshake"
+  | NoiseFrame.NReady -> "ready" | NoiseFrame.NClosed -> "closed"
+
 let handle (line : string) : string =
   match words line with
   | "venc" :: v :: [] -> hex_of_bytes (Varint.enc (n_of_hex v))
@@ -83,6 +187,20 @@ let handle (line : string) : string =
     Printf.sprintf "%s buf=%s status=%s"
       (Stdlib.String.concat "|" (Stdlib.List.map (fun l -> Stdlib.String.concat "," (Stdlib.List.map show_pevent l)) evs))
       (hex_of_bytes buf) (show_status st)
+  | "noise" :: en :: ops ->
+    let expected = if en = "none" then None else Some (bytes_of_hex en) in
+    let (evs, xf) = NoiseFrame.run (sym_encrypt dir_c2s) (sym_decrypt dir_s2c) hs_init_sym hs_read_sym utf8_ok expected
+        NoiseFrame.sess_init (Stdlib.List.map parse_op ops) in
+    let s = xf.NoiseFrame.ss in
+    Printf.sprintf "%s state=%s buf=%s nonces=%s,%s"
+      (Stdlib.String.concat "|" (Stdlib.List.map (fun l -> Stdlib.String.concat "," (Stdlib.List.map show_nevent l)) evs))
+      (show_nstate s.NoiseFrame.s_state) (text_of_sym s.NoiseFrame.s_buffer)
+      (hex_of_n s.NoiseFrame.s_dec_nonce) (hex_of_n s.NoiseFrame.s_enc_nonce)
+  | "spec_plain" :: b :: [] ->
+    let bs = bytes_of_hex b in
+    (match WireSpec.spec_decode_plain (nat_of_int (Stdlib.List.length bs + 1)) bs with
+     | None -> "none"
+     | Some l -> if l = [] then "-" else Stdlib.String.concat "," (Stdlib.List.map (fun (t, p) -> hex_of_n t ^ ":" ^ hex_of_bytes p) l))
   | _ -> "?unknown-command"
 
 let () =
